@@ -17,7 +17,7 @@ namespace QV.C34
 
 inductive Qubit where
   | fixed (n : Nat)
-  | variable (s : String)
+  | var (s : String)
   | placeholder (k : Nat)
   deriving DecidableEq, Repr, Inhabited
 
@@ -32,12 +32,14 @@ inductive Instr where
   deriving DecidableEq, Repr, Inhabited
 
 /-- The instruction kinds whose qubits `Instruction::get_qubits` / `get_qubits_mut` return
-(instruction/mod.rs:688-760).  Every other variant falls into `_ => vec![]` — including the
-frame-mutation instructions SET-FREQUENCY, SET-PHASE, SET-SCALE, SHIFT-FREQUENCY, SHIFT-PHASE and
-SWAP-PHASES, whose `FrameIdentifier`s do hold qubits.  (CalibrationDefinition and
-MeasureCalibrationDefinition are also listed there but never occur in a body.) -/
+(instruction/mod.rs:688-790).  Every other variant falls into `_ => vec![]`.
+(CalibrationDefinition and MeasureCalibrationDefinition are also listed there but never occur in a
+body.)  Since the `fix:` commit a86534e the frame-mutation instructions SET-FREQUENCY, SET-PHASE,
+SET-SCALE, SHIFT-FREQUENCY, SHIFT-PHASE and SWAP-PHASES (both frames) are in the table; before it
+they fell into the default arm although their `FrameIdentifier`s hold qubits (the C34 defect). -/
 def visibleKinds : List String :=
-  ["Gate", "Measurement", "Reset", "Delay", "Fence", "Capture", "Pulse", "RawCapture"]
+  ["Gate", "Measurement", "Reset", "Delay", "Fence", "Capture", "Pulse", "RawCapture",
+   "SetFrequency", "SetPhase", "SetScale", "ShiftFrequency", "ShiftPhase", "SwapPhases"]
 
 def visible (kind : String) : Bool := visibleKinds.contains kind
 
